@@ -880,6 +880,10 @@ class Program:
         """the same body with mutation-through-&mut tracked as definitions (Engine D)"""
         if not hasattr(self, "_tracked"):
             self._tracked = {}
+        if getattr(body, "inlined", False):
+            nb = Body(self, body.raw, track_mut=True)      # an inlined variant is not the cached body of that key
+            nb.inlined = True
+            return nb
         if body.key not in self._tracked:
             self._tracked[body.key] = Body(self, body.raw, track_mut=True)
         return self._tracked[body.key]
